@@ -671,7 +671,7 @@ func (g *progGen) body(prefix string, nmw int, depth int) []*Stmt {
 				s.Style = 3
 				s.Methods = model.Methods
 			} else if s.Style == 1 {
-				s.Methods = []string{rapid.SampledFrom(model.Methods[:5]).Draw(t, "method")}
+				s.Methods = []string{rapid.SampledFrom(model.Methods).Draw(t, "method")} // every shortcut, CONNECT() and TRACE() too
 			} else {
 				s.Methods = rapid.SliceOfNDistinct(rapid.SampledFrom(model.Methods[:5]), 1, 2, rapid.ID[string]).Draw(t, "methods")
 			}
